@@ -282,7 +282,133 @@ Definition diff_seq (d : diff) : list rr :=
 Definition ixfr_seq (snew : N) (ds : list diff) : list rr :=
   Soa snew :: concat (map diff_seq ds) ++ [Soa snew].
 
+(* ---- diff capture: zonetree/in_memory/write.rs WriteNode::{update_rrset,
+   remove_rrset, remove_all}, WriteZone::commit (SOA bracketing),
+   zonetree/types.rs InMemoryZoneDiffBuilder::{add,remove,build}, driven by
+   ZoneUpdater::{add_record_to_rrset, delete_record_from_rrset, update_soa} ----
+   An RRset is (ttl, data list) under a key (owner, type); key 0 is the apex SOA.
+   Rrset equality is the derived one: ttl and the data vector in order. *)
+Definition rrs := (N * list N)%type.
+Definition store := list (N * rrs).
+
+Fixpoint s_get (k : N) (st : store) : option rrs :=
+  match st with
+  | [] => None
+  | (k', v) :: rest => if k' =? k then Some v else s_get k rest
+  end.
+Fixpoint s_remove (k : N) (st : store) : store :=
+  match st with
+  | [] => []
+  | (k', v) :: rest => if k' =? k then s_remove k rest else (k', v) :: s_remove k rest
+  end.
+Definition s_set (k : N) (v : rrs) (st : store) : store := (k, v) :: s_remove k st.
+
+Definition memN (x : N) (l : list N) : bool := existsb (N.eqb x) l.
+Fixpoint list_eqb (a b : list N) : bool :=
+  match a, b with
+  | [], [] => true
+  | x :: a', y :: b' => (x =? y) && list_eqb a' b'
+  | _, _ => false
+  end.
+Definition rrs_eqb (a b : rrs) : bool := (fst a =? fst b) && list_eqb (snd a) (snd b).
+Definition is_nil {A} (l : list A) : bool := match l with [] => true | _ => false end.
+
+Record dstate := mkD { ds_pub : store; ds_work : store; ds_rem : store; ds_add : store }.
+
+Definition update_rrset (k : N) (new : rrs) (st : dstate) : dstate :=
+  let cur_opt :=
+    match s_get k (ds_pub st) with
+    | Some c => if negb (rrs_eqb new c) && negb (is_nil (snd c)) then Some c else None
+    | None => None
+    end in
+  let '(rem, add) :=
+    match cur_opt, negb (is_nil (snd new)) with
+    | Some c, true =>
+        let removed := filter (fun x => negb (memN x (snd new))) (snd c) in
+        let added := filter (fun x => negb (memN x (snd c))) (snd new) in
+        (if is_nil removed then ds_rem st else s_set k (fst new, removed) (ds_rem st),
+         if is_nil added then ds_add st else s_set k (fst new, added) (ds_add st))
+    | Some c, false => (s_set k c (ds_rem st), ds_add st)
+    | None, true => (ds_rem st, s_set k new (ds_add st))
+    | None, false => (ds_rem st, ds_add st)
+    end in
+  mkD (ds_pub st) (s_set k new (ds_work st)) rem add.
+
+Definition remove_rrset (k : N) (st : dstate) : dstate :=
+  let rem := match s_get k (ds_pub st) with Some c => s_set k c (ds_rem st) | None => ds_rem st end in
+  mkD (ds_pub st) (s_remove k (ds_work st)) rem (ds_add st).
+
+Inductive dop :=
+| DDeleteAll | DAdd (k d t : N) | DDel (k d t : N)
+| DBatch                      (* BeginBatchDelete: commit + reopen *)
+| DSoa (s t : N)              (* BeginBatchAdd: update_soa *)
+| DFinish (s t : N).          (* Finished: update_soa + commit *)
+
+Definition d_existing (k : N) (st : dstate) : list N :=
+  match s_get k (ds_work st) with Some v => snd v | None => [] end.
+
+(* serial of a SOA id as the harness builds it: id / 2 *)
+Definition soa_serial (id : N) : N := id / 2.
+
+(* WriteZone::commit(false): Some (removed, added) when a diff is returned *)
+Definition d_commit (st : dstate) : dstate * option (store * store) :=
+  let old_soa := match s_get 0 (ds_pub st) with Some (t, x :: _) => Some (t, x) | _ => None end in
+  let new_soa := match s_get 0 (ds_work st) with Some (t, x :: _) => Some (t, x) | _ => None end in
+  let out :=
+    match new_soa with
+    | None => None
+    | Some (tn, sn) =>
+        match old_soa with
+        | None => None
+        | Some (to, so) =>
+            if (soa_serial so =? soa_serial sn) || (soa_serial sn <? soa_serial so) then None
+            else Some (s_set 0 (to, [so]) (ds_rem st), s_set 0 (tn, [sn]) (ds_add st))
+        end
+    end in
+  (mkD (ds_work st) (ds_work st) [] [], out).
+
+Definition d_step (o : dop) (st : dstate) : dstate * list (option (store * store)) :=
+  match o with
+  | DDeleteAll => (mkD (ds_pub st) [] (ds_rem st) (ds_add st), [])
+  | DAdd k d t => (update_rrset k (t, d :: d_existing k st) st, [])
+  | DDel k d t =>
+      let data := filter (fun x => negb (x =? d)) (d_existing k st) in
+      (if is_nil data then remove_rrset k st else update_rrset k (t, data) st, [])
+  | DBatch => let '(st', r) := d_commit st in (st', [r])
+  | DSoa s t => (update_rrset 0 (t, [s]) st, [])
+  | DFinish s t => let '(st', r) := d_commit (update_rrset 0 (t, [s]) st) in (st', [r])
+  end.
+
+Fixpoint d_run (ops : list dop) (st : dstate) : dstate * list (option (store * store)) :=
+  match ops with
+  | [] => (st, [])
+  | o :: rest =>
+      let '(st1, r1) := d_step o st in
+      let '(st2, r2) := d_run rest st1 in (st2, r1 ++ r2)
+  end.
+
+(* applying a reported diff to a content (removes first, then adds) *)
+Definition rrs_minus (v : rrs) (gone : list N) : option rrs :=
+  let d := filter (fun x => negb (memN x gone)) (snd v) in
+  if is_nil d then None else Some (fst v, d).
+Definition apply_removed (c : store) (rem : store) : store :=
+  fold_left (fun c e =>
+    match s_get (fst e) c with
+    | Some v => match rrs_minus v (snd (snd e)) with
+                | Some v' => s_set (fst e) v' c
+                | None => s_remove (fst e) c end
+    | None => c end) rem c.
+Definition apply_added (c : store) (add : store) : store :=
+  fold_left (fun c e =>
+    let old := match s_get (fst e) c with Some v => snd v | None => [] end in
+    s_set (fst e) (fst (snd e), old ++ filter (fun x => negb (memN x old)) (snd (snd e))) c) add c.
+Definition apply_zdiff (c : store) (d : store * store) : store :=
+  apply_added (apply_removed c (fst d)) (snd d).
+
+Definition d_start (pub : store) : dstate := mkD pub pub [] [].
+
 (* ---- entry points for the correspondence driver ---- *)
 Definition c10_run (ms : list msg) : list upd * status := run None ms.
 Definition c10_apply (z0 : zone) (us : list upd) : outcome ustate := u_apply_all us (u_start z0).
 Definition c10_check (first : bool) (h : hdr) : bool := check_response first h.
+Definition c10_diff (pub : store) (ops : list dop) : list (option (store * store)) := snd (d_run ops (d_start pub)).
